@@ -91,4 +91,27 @@ def run : Version → Int → Int → Nat → List Msg → Except Fail (List Msg
   | .shipped => runShipped
   | .fixed => runFixed
 
+/-- a source that fails after delivering `inp`: `Run` returns the (wrapped) error; what was emitted until then -/
+def runFail (v : Version) (md res : Int) (idx : Nat) (inp : List Msg) : Except Fail (List Msg) := run v md res idx inp
+
+/-! ### which column is the time field: `OutputSchema` (typecheck time) and `Materialize` (run time)
+
+  A field is a name and whether its type is exactly `Time` (`field.Type.TypeID == octosql.TypeIDTime`). -/
+
+/-- `OutputSchema`: `for i, field := range source.Schema.Fields { if timeField != field.Name { continue };
+    if field.Type.TypeID != TypeIDTime { return error }; timeFieldIndex = i; break }; if timeFieldIndex == -1 { error }`.
+    The result is the `TimeField` of the output schema. -/
+def schemaTimeField (want : String) : List (String × Bool) → Nat → Except Fail Nat
+  | [], _ => .error .err                      -- "no … field in source stream"
+  | (name, isTime) :: rest, i =>
+    if want ≠ name then schemaTimeField want rest (i + 1)
+    else if !isTime then .error .err          -- "time_field must reference field with type Time"
+    else .ok i
+
+/-- `Materialize`: `for i, field := range …Schema.Fields { if timeField == field.Name { timeFieldIndex = i; break } }`;
+    `none` = the index stays −1 (`Run` would index out of range) -/
+def materializeIndex (want : String) : List (String × Bool) → Nat → Option Nat
+  | [], _ => none
+  | (name, _) :: rest, i => if want = name then some i else materializeIndex want rest (i + 1)
+
 end Octo.MaxDiff
